@@ -77,7 +77,7 @@ func checkC20(c *ctx) {
 	mo.Spellings = []int{prog.SpLit, prog.SpLit, prog.SpTop, prog.SpMethod, prog.SpVar}
 	var gcov map[string]interface{}
 	if c.R.NumViolations() < 6 {
-		c.AlsoProps = []string{"C01", "C02", "C03", "C04", "C07"}
+		c.AlsoProps = []string{"C01", "C02", "C03", "C04", "C07", "C09"}
 		progs := genPrograms(c.Seed, "C20m", c.pick(70, 800), 0, mo, 1)
 		for _, p := range progs {
 			p.InMethod = false
